@@ -59,8 +59,13 @@ def gen_cases(ctx, n=None):
     rng = rng_for(ctx, 5)
     n = n or (6 if ctx.tier == "quick" else 14)
     out = []
-    for _ in range(n):
-        spec = K.gen_spec(rng, n_max=6, tier=ctx.tier, full_frac=0.0)
+    for k in range(n):
+        spec = K.gen_spec(rng, n_max=6, tier=ctx.tier, full_frac=0.0, allow_offsets=(k % 3 != 0))
+        if k % 3 == 0:
+            # data built with t_ref=False (no reference epoch): must survive pickling to pool workers.  No trend terms then:
+            # with epochs counted from MJD 0 a trend column of 5e4 days makes the problem ill-conditioned in double precision
+            spec["t_ref"] = False
+            spec["n_poly"], spec["lin"] = 1, spec["lin"][:2]
         spec["lib_seed"] = int(rng.integers(0, 2**31))
         spec["lib_n"] = int(rng.choice([5, 11, 23, 37]))
         out.append(spec)
@@ -122,6 +127,10 @@ def observe(ctx, spec, with_pool):
         conv = [("jitter in " + other + ", in memory", np.asarray(J().marginal_ln_likelihood(data, lib2, in_memory=True), float)),
                 ("jitter in " + other + ", object->cache", np.asarray(J().marginal_ln_likelihood(data, lib2, n_batches=3), float)),
                 ("jitter in " + other + ", filename", np.asarray(J().marginal_ln_likelihood(data, fn2, n_batches=2), float))]
+        # the SAME file name overwritten with the library in other units, then evaluated again in this process
+        lib2.write(fn, overwrite=True)
+        conv.append(("file overwritten in place with the jitter column in " + other, np.asarray(J().marginal_ln_likelihood(data, fn, n_batches=2), float)))
+        lib.write(fn, overwrite=True)
         # accepted sets for equal seeds
         acc = []
 
@@ -247,7 +256,7 @@ def run(ctx):
             n_eval += 1
     ctx.coverage.update(evaluations=n_eval, distinct_nontrivial=nt)
     return ctx.finish(
-        rule="problems as for C01 (nice regime) with a library of N in {5,11,23,37} prior samples in kernel units whose jitter varies from row to row (zeros and positive values mixed) and with capped short-period rows, plus the same library with the jitter column in the other velocity unit (agreement to 1e-11); paths: in-memory object, "
+        rule="problems as for C01 (nice regime) with a library of N in {5,11,23,37} prior samples in kernel units whose jitter varies from row to row (zeros and positive values mixed) and with capped short-period rows, plus the same library with the jitter column in the other velocity unit (agreement to 1e-11, also after overwriting the same file name in place); every third problem has data built with t_ref=False; paths: in-memory object, "
         "object->cache and file name with n_batches in {None,2,3,N-1,N+5} (thorough: {None,1,2,3,N-1,N,N+1,N+5}), 2-process MultiPool with "
         "n_batches 2, 5 and None (first problem in quick, all in thorough), after unrelated marginal / posterior calls on the same TheJoker, the "
         "helper before and after posterior/test calls, a pickled helper, each row alone, reversed order; accepted sets for equal seeds over "
